@@ -21,7 +21,7 @@ CLASSES = ['configurable', 'denylisted', 'not-allowlisted', 'unknown-no-varkw', 
 APIS = ['str', 'tuple', 'list', 'text', 'block', 'block-multi', 'files_and_bindings', 'hook']
 REQUIRED_BUCKETS = (['class:' + c for c in CLASSES] + ['api:' + a for a in APIS] + ['shape:fn', 'shape:init', 'shape:new', 'shape:method',
                     'verdict:accepted', 'verdict:rejected', 'scoped', 'accepted-then-injected', 'rejected-then-not-injected', 'varkw-with-denylist',
-                    'special:reregister-with-denylist', 'special:reregister-interactive', 'special:decorated-function', 'special:two-hooks-second-rejected', 'special:dynamic-method-keeps-class-lists'])
+                    'special:reregister-with-denylist', 'special:reregister-interactive', 'special:decorated-function', 'special:two-hooks-second-rejected', 'special:dynamic-method-keeps-class-lists', 'special:list-given-as-iterator'])
 ORACLE_COUNTERS = ['oracle_evals', 'attempts']
 _S = {'plan': None}
 
@@ -54,7 +54,8 @@ def finish(ctx):
 def iter_cases(ctx, rng, n):
   for i in range(n):
     if i % 9 == 8:
-      yield {'special': rng.choice(['reregister-with-denylist', 'reregister-interactive', 'decorated-function', 'two-hooks-second-rejected', 'dynamic-method-keeps-class-lists']),
+      yield {'special': rng.choice(['reregister-with-denylist', 'reregister-interactive', 'decorated-function', 'two-hooks-second-rejected', 'dynamic-method-keeps-class-lists',
+                                          'list-given-as-iterator']),
              'api': rng.choice(['str', 'tuple', 'text', 'block']), 'scope': rng.choice(['', 'sc']), 'spelling': rng.choice(['short', 'mid', 'full'])}
       continue
     cls = CLASSES[i % len(CLASSES)]
@@ -119,7 +120,8 @@ def attempt(gin, case, p, value):
   if case['cls'] == 'unknown-configurable':
     sel = 'c11_no_such_configurable'
   elif case['cls'] == 'method-bare':
-    sel = p.name
+    # neither the bare method name nor its old module-level selector (before the class was registered) may address it
+    sel = p.name if case.get('pre') else 'vfprobes.' + p.name
   else:
     sel = p.key_selector
   if api == 'str':
@@ -211,7 +213,23 @@ def run_special(ctx, case):
       ctx.count('oracle_evals')
     ctx.check(snap.full(gin) == before, 'rejected-binding-changed-config', '%s: rejected binding changed the configuration' % kind)
 
-  if kind == 'dynamic-method-keeps-class-lists':
+  if kind == 'list-given-as-iterator':
+    # an allowlist/denylist that is not a list or tuple: either refused at registration, or (if accepted) enforced like a list
+    listkind = ['generator', 'iter', 'set', 'dict-keys', 'map'][n % 5]
+    names = {'generator': (x for x in ['y']), 'iter': iter(['y']), 'set': {'y'}, 'dict-keys': {'y': 1}.keys(), 'map': map(str, ['y'])}[listkind]
+    try:
+      if n % 2:
+        gin.external_configurable(f, name, module=module, denylist=names)
+      else:
+        gin.configurable(name, module=module, denylist=names)(f)
+      registered = True
+    except (TypeError, ValueError):
+      registered = False
+      ctx.count('oracle_evals')
+    ctx.bucket('special:list-as-' + ('accepted' if registered else 'refused'))
+    if registered:
+      expect_rejected('y', 'y was given in the denylist (as %s)' % listkind)
+  elif kind == 'dynamic-method-keeps-class-lists':
     # a class registered (statically) with a denylist/allowlist; a config file then configures one of its methods under dynamic registration,
     # which re-registers the class: the lists must still hold
     import importlib
